@@ -140,6 +140,11 @@ pub fn run(ctx: &Ctx) -> ! {
     let shapes: Mutex<BTreeSet<String>> = Mutex::new(BTreeSet::new());
     let distinct: Mutex<BTreeSet<u64>> = Mutex::new(BTreeSet::new());
     let samples = Mutex::new(Samples::new(4));
+    cfg.extra.push(("two-edge structures + one deviation of any kind", {
+        let mut x = corpus::structures_any_cfg(&uni);
+        x.only_datasets = Some(vec!["diamond", "fan3", "counts0123", "chains"]);
+        x
+    }));
     let stats = corpus::drive(
         ctx,
         &uni,
